@@ -9,6 +9,13 @@ import "fmt"
 
 func fitsWidth(v uint64, w int) bool { return w >= 8 || v < uint64(1)<<(8*uint(w)) }
 
+// inRange is InRange(T, n) of TLSCodec.tla: <min..max>; MaxlenZeroIsWidth: a declared maximum of 0 is no declared range.
+func inRange(t *Type, n uint64) bool {
+	lo, _ := t.Min.U64()
+	hi, _ := t.Max.U64()
+	return hi == 0 || (lo <= n && n <= hi)
+}
+
 func putUint(out []byte, v uint64, w int) []byte {
 	for i := w - 1; i >= 0; i-- {
 		out = append(out, byte(v>>(8*uint(i))))
@@ -58,9 +65,7 @@ func refEnc(out []byte, t *Type, v Val) ([]byte, bool) {
 			}
 		}
 		n := uint64(len(body))
-		lo, _ := t.Min.U64()
-		hi, _ := t.Max.U64()
-		if !fitsWidth(n, t.W) || n < lo || n > hi {
+		if !fitsWidth(n, t.W) || !inRange(t, n) {
 			return nil, false
 		}
 		return append(putUint(out, n, t.W), body...), true
@@ -132,9 +137,7 @@ func RefDec(t *Type, b []byte) (Val, []byte, bool) {
 		}
 		n := getUint(b, t.W)
 		r := b[t.W:]
-		lo, _ := t.Min.U64()
-		hi, _ := t.Max.U64()
-		if n < lo || n > hi || n > uint64(len(r)) {
+		if !inRange(t, n) || n > uint64(len(r)) {
 			return Val{}, nil, false
 		}
 		body, rest := r[:n], r[n:]
@@ -291,6 +294,14 @@ func Vec(min, max uint64, elem *Type) *Type {
 		elem = &Type{K: "byte"}
 	}
 	return &Type{K: "vec", Min: NumOf(min), Max: NumOf(max), W: widthOf(max), Elem: elem}
+}
+
+// VecForm is Vec with the spelling of the tag: "minmax" (minlen:N,maxlen:M), "maxmin" (maxlen:M,minlen:N) or "max"
+// (maxlen:M, only for min = 0).
+func VecForm(min, max uint64, elem *Type, form string) *Type {
+	t := Vec(min, max, elem)
+	t.Form = form
+	return t
 }
 
 // Struct is a struct of the given members.
